@@ -8,6 +8,7 @@
 //!   T|<fmt>|<dtype>|<shape a,b,..>|<view>|<seed>|<hex name>   write a tensor through a view, read back
 //!   G|<dtype>|<shape>                                     tensor too large to materialise (broadcast zeros)
 //!   S|<hex bytes> / Z|<hex bytes>                         safetensors::read / npz::read on arbitrary bytes
+//!   M|<fmt>|<dtype>|<seed>|<hex name>,<hex name>,...      several named tensors in ONE npz / safetensors archive
 use rten_serialize::View;
 use rten_tensor::TensorView;
 use std::io::{BufRead, Write};
@@ -68,6 +69,23 @@ fn exec_line(line: &str) -> String {
             let coqd = with_dtype!(f[1], T => <T as HBits>::COQ);
             let sh: Vec<u64> = shape.iter().map(|&x| x as u64).collect();
             (format!("big-{}", o.tag()), format!("(CBig {} {} {} {} {} {})", dbg, coqd, coq_list_u64(&sh), coq_bytes(&hdr), total, o.coq()))
+        }
+        "M" => {
+            let st = f[1] == "st";
+            let seed: u64 = f[3].parse().unwrap();
+            let names: Vec<String> = if f[4].is_empty() { vec![] } else { f[4].split(',').map(|h| String::from_utf8(unhex(h)).unwrap()).collect() };
+            let width = width_bits(f[2]);
+            let m = with_dtype!(f[2], T => multi_round::<T>(st, &names, seed, width));
+            let coqd = with_dtype!(f[2], T => <T as HBits>::COQ);
+            let ents: Vec<String> = m.entries.iter().map(|(n, sh, el)| {
+                let shv: Vec<u64> = sh.iter().map(|&x| x as u64).collect();
+                format!("({}, ({}, ({}, {})))", coq_bytes(n.as_bytes()), coqd, coq_list_u64(&shv), coq_list_u64(el))
+            }).collect();
+            let rb: Vec<String> = m.readback.iter().map(|(k, o)| format!("({}, {})", coq_bytes(k), o.coq())).collect();
+            let ra: Vec<String> = m.by_name.iter().map(|o| o.coq()).collect();
+            let dotted = names.iter().any(|n| n.trim_end_matches(".npy").contains('.'));
+            (format!("multi-{}-n{}{}-{}", f[1], names.len(), if dotted { "-dotted" } else { "" }, if m.wrote { "ok" } else { "refused" }),
+             format!("(CMulti {} {} [{}] {} [{}] [{}])", dbg, if st { "FSafetensors" } else { "FNpz" }, ents.join(";"), m.wrote, rb.join(";"), ra.join(";")))
         }
         "S" | "Z" => {
             let bytes = unhex(f[1]);
@@ -296,6 +314,47 @@ fn other_formats(rng: &mut SplitMix64, n: usize, out: &mut impl Write) {
     }
 }
 
+fn emit_m(out: &mut impl Write, fmt: &str, dt: &str, seed: u64, names: &[&str]) {
+    let hs: Vec<String> = names.iter().map(|n| hex(n.as_bytes())).collect();
+    writeln!(out, "M|{}|{}|{}|{}", fmt, dt, seed, hs.join(",")).unwrap();
+}
+
+fn multi_entries(rng: &mut SplitMix64, n: usize, out: &mut impl Write) {
+    let long_a: String = "a".repeat(300);
+    let long_dotted: String = format!("{}.{}", "layer".repeat(40), "w".repeat(60));
+    let pool: Vec<&str> = vec![
+        "a", "b", "a.b", "layer.0", "layer.1", "fc.weight", "fc.bias", "x.npy", "x.npy.npy", ".hidden", "trailing.", "a.b.c.d",
+        "v1.2/w.q", "a.b/c", "dir/a", "dir/b.0", "model.layers.0.attn.q_proj.weight", "model.layers.0.attn.k_proj.weight",
+        "\u{fc}n\u{ef}.c\u{f6}d\u{e9}", "\u{1f600}.\u{1f601}", "\u{65e5}\u{672c}.\u{8a9e}", "a b.c d", "A.NPY", "a.npz", "a.npy.bak", "0", "0.0", "..x", "x..", "a..b",
+        &long_a, &long_dotted,
+    ];
+    let sets: Vec<Vec<&str>> = vec![
+        vec!["a.b"], vec!["layer.0"], vec!["fc.weight", "fc.bias"], vec!["x.npy"], vec!["x.npy.npy"], vec![".hidden"], vec!["trailing."],
+        vec!["layer.0", "layer.1", "layer.2.bias"], vec!["a", "a.b", "a.b.c"], vec!["v1.2/w.q", "v1.2/w.k"], vec!["a.b/c", "a.b/d"],
+        vec!["model.layers.0.attn.q_proj.weight", "model.layers.0.attn.k_proj.weight", "model.layers.1.attn.q_proj.weight", "model.norm.weight"],
+        vec!["\u{fc}n\u{ef}.c\u{f6}d\u{e9}", "\u{65e5}\u{672c}.\u{8a9e}", "\u{1f600}.\u{1f601}"], vec![&long_a, &long_dotted], vec!["0", "0.0", "0.0.0"],
+        vec!["x", "x.npy"], vec!["a", "a"], vec!["a.npy", "a.npy.npy"], vec![""], vec!["a", ""], vec![".npy", "b"], vec![],
+        vec!["a", "b", "c", "d", "e", "f", "g", "h"], vec!["w.0", "w.1", "w.2", "w.3", "w.4", "w.5"],
+    ];
+    let dts = ["i32", "f32", "u8", "bool", "f64", "i64", "u16"];
+    for (i, set) in sets.iter().enumerate() {
+        for fmt in ["npz", "st"] {
+            emit_m(out, fmt, dts[i % dts.len()], rng.next() >> 1, set);
+        }
+    }
+    for i in 0..n {
+        let k = 1 + rng.below(4) as usize;
+        let mut names: Vec<&str> = Vec::new();
+        while names.len() < k {
+            let c = rng.pick(&pool);
+            // safetensors keeps one of two equal names silently; npz refuses: exercise collisions for npz only
+            if i % 2 == 1 && names.contains(&c) { continue; }
+            names.push(c);
+        }
+        emit_m(out, if i % 2 == 0 { "npz" } else { "st" }, rng.pick(&dts), rng.next() >> 1, &names);
+    }
+}
+
 fn valid_npy(rng: &mut SplitMix64) -> Vec<u8> {
     let dt = rng.pick(&DTYPES);
     let rank = rng.below(4) as usize;
@@ -319,7 +378,7 @@ fn generate(seed: u64, n: usize, tier: &str, out: &mut impl Write) {
         vec![2, 0, 3], vec![2, 3, 4], vec![1, 2, 1], vec![3, 1, 2], vec![2, 2, 2, 2], vec![1, 3, 2, 1], vec![2, 1, 0, 2], vec![4, 3, 2, 1],
         vec![10], vec![11], vec![99], vec![100], vec![9, 11], vec![101],
     ];
-    let names = ["a", "a.npy", "x.npy.npy", "dir/a", "weights.0.bias", "\u{fc}n\u{ef}", "a b", "a.NPY", "npy", "a.npz"];
+    let names = ["a", "a.npy", "x.npy.npy", "dir/a", "weights.0.bias", "\u{fc}n\u{ef}", "a b", "a.NPY", "npy", "a.npz", "layer.0", "fc.weight", ".hidden", "trailing.", "a.b"];
     let mut k = 0u64;
     for dt in DTYPES {
         for sh in &shapes {
@@ -327,7 +386,7 @@ fn generate(seed: u64, n: usize, tier: &str, out: &mut impl Write) {
                 for (fi, fmt) in ["npy", "npz", "st"].into_iter().enumerate() {
                     k += 1;
                     // quick tier: every (dtype, shape, view) for npy; a rotating quarter for npz/st
-                    if !thorough && fmt != "npy" && (k / 3 + fi as u64) % 4 != 0 {
+                    if !thorough && fmt != "npy" && (k / 3 + fi as u64) % 5 != 0 {
                         continue;
                     }
                     let name = names[(k % names.len() as u64) as usize];
@@ -348,6 +407,8 @@ fn generate(seed: u64, n: usize, tier: &str, out: &mut impl Write) {
         writeln!(out, "T|npz|i32|2,2|c|7|{}", hex(name.as_bytes())).unwrap();
         writeln!(out, "T|st|i32|2,2|p|7|{}", hex(name.as_bytes())).unwrap();
     }
+    // archives with several entries; entry names with dots, unicode, long names
+    multi_entries(&mut rng, if thorough { 400 } else { 60 }, out);
     // 2. tensors of >= 4 GiB (never materialised)
     writeln!(out, "G|u64|536870912").unwrap();
     writeln!(out, "G|f64|2,268435456").unwrap();
